@@ -257,6 +257,16 @@ def run(rep):
         recs.append({'b': b, 'jumps': sites_drive.rows_of(j.data, sites_drive.J_COLS), 'window': int(col.max_steps),
                      'sites': w.sites_k, 'G': w.G, 'N': 32, 'R': R, 'thr': int(math.ceil(cut * cut * 32 * 32)),
                      'pairs': pairs, 'nsolo': nsolo, 'ncoll': ncoll, 'meta': f'{fam} via Jumps.collective cut={cut:.4f} sites-lattice-scale={scale}'})
+        # the default call (1 A, automatic window) and the properties of Jumps that are defined through it
+        cold = j.collective()
+        pairs_d, nsolo_d, ncoll_d = observe(cold)
+        recs.append({'b': b + 100000, 'jumps': sites_drive.rows_of(j.data, sites_drive.J_COLS), 'window': int(cold.max_steps),
+                     'sites': w.sites_k, 'G': w.G, 'N': 32, 'R': R, 'thr': 32 * 32,
+                     'pairs': pairs_d, 'nsolo': nsolo_d, 'ncoll': ncoll_d, 'meta': f'{fam} via Jumps.collective() defaults'})
+        rep.evaluations += 1
+        if int(j.n_solo_jumps) != nsolo_d or abs(float(j.solo_fraction) - nsolo_d / int(j.n_jumps)) > 1e-12 or int(j.n_jumps) != len(recs[-1]['jumps']):
+            rep.violation({'kind': 'leg-B', 'clause': 'Jumps.n_solo_jumps / solo_fraction / n_jumps disagree with Jumps.collective()',
+                           'observed': [int(j.n_solo_jumps), float(j.solo_fraction), int(j.n_jumps)], 'collective_default': [nsolo_d, ncoll_d]})
     verdicts = core.validate_traces('TraceColl', recs, timeout=1800)
     rep.add_trace_stats()
     for rec, (v, _) in zip(recs, verdicts):
